@@ -25,6 +25,19 @@ fn case(t: &mut Tape, info: &mut CaseInfo) -> Result<(), String> {
     if info.want_sample {
         info.sample = Some(json!({"map": c.spec.sample(), "target": mode_name(c.target), "difficulty": c.dspec.describe()}));
     }
+    // an eighth of the maps is shifted in time by a fraction of a millisecond after decoding (public fields;
+    // the decoder only yields what the text spells, a caller may hand over anything)
+    let mut c = c;
+    if t.chance(1, 8) {
+        let delta = *t.pick(&[0.1, 0.25, -0.3, 1000.1, 0.7]);
+        for h in c.map.hit_objects.iter_mut() {
+            h.start_time += delta;
+        }
+        for tp in c.map.timing_points.iter_mut() {
+            tp.time += delta;
+        }
+        info.label("time-shifted-by-a-fraction");
+    }
     let mods = c.dspec.mods.build(c.target);
     let explicit = c.map.clone().convert(c.target, &mods).map_err(|e| e.to_string())?;
     let objs = &explicit.hit_objects;
@@ -225,7 +238,7 @@ pub fn property() -> Property {
         id: "C14",
         subchecks: vec![SubCheck {
             name: "counts-and-prefixes",
-            rule: "G-MAP (all modes + converts, <=40 objects) x G-DIFF (HR/EZ, lazer mirror variants, key mods, HO, IN, Random) x every n in 0..total+3 plus u32::MAX and 2*total+7. Oracle: independent recount from the public hit_objects of the explicitly converted map (osu circles/sliders/spinners(+holds) per prefix; taiko max_combo = #hits; mania n_objects/n_hold_notes per prefix and, for the full map, after modelling HoldOff (holds become notes) and Invert (per column: #locations-1 hold notes) in that order; catch n_fruits = circles + sum(span_count+1)); counted units == min(n,total); every count non-decreasing in n; n > total => all fields same-value-equal to the unlimited result; is_convert flag iff converted; the gradual calculator's max combo never decreases and its last value equals the full calculation (rare hours-long hold notes push the combo past 65535). Non-trivial: a slider with >=1 repeat or a hold/spinner, and total >= 2.",
+            rule: "G-MAP (all modes + converts, <=40 objects) x G-DIFF (HR/EZ, lazer mirror variants, key mods, HO, IN, Random) x every n in 0..total+3 plus u32::MAX and 2*total+7. Oracle: independent recount from the public hit_objects of the explicitly converted map (osu circles/sliders/spinners(+holds) per prefix; taiko max_combo = #hits; mania n_objects/n_hold_notes per prefix and, for the full map, after modelling HoldOff (holds become notes) and Invert (per column: #locations-1 hold notes) in that order; catch n_fruits = circles + sum(span_count+1)); counted units == min(n,total); every count non-decreasing in n; n > total => all fields same-value-equal to the unlimited result; is_convert flag iff converted; the gradual calculator's max combo never decreases and its last value equals the full calculation (rare hours-long hold notes push the combo past 65535; an eighth of the maps is shifted by a fraction of a millisecond after decoding). Non-trivial: a slider with >=1 repeat or a hold/spinner, and total >= 2.",
             quick: 20_000,
             thorough: 100_000,
             tape_len: 1400,
